@@ -1,13 +1,18 @@
 #!/bin/bash
 # Runs every stored seed against the check of its property (and extra checks named in tools/seed_extra.txt)
 # on the scratch worktree /tmp/wt2; writes $D/seeded/RESULTS.md and fills detected_by in each meta.json.
+# Sharding: SHARD=i NSHARD=n runs every n-th seed (own worktree SEED_WT) and writes RESULTS.md.part<i>; tools/seed_matrix_par.sh merges.
 WT=${SEED_WT:-/tmp/wt2}
 D=$(cd "$(dirname "$0")/.." && pwd)
 OUT=$D/seeded/RESULTS.md
+SHARD=${SHARD:-0}; NSHARD=${NSHARD:-1}
+[ $NSHARD -gt 1 ] && OUT=$OUT.part$SHARD
+idx=-1
 echo "| seed | check | exit | first violation |" > $OUT.tmp; echo "|---|---|---|---|" >> $OUT.tmp
 git -C $WT checkout -q --detach $(git -C /repo rev-parse HEAD)
 for d in $D/seeded/*/; do
   s=$(basename $d); prop=${s%%-*}
+  idx=$((idx+1)); [ $((idx % NSHARD)) -ne $SHARD ] && continue
   checks=$prop
   extra=$(grep "^$s " $D/tools/seed_extra.txt 2>/dev/null | cut -d' ' -f2-)
   [ -n "$extra" ] && checks="$extra"
